@@ -1,39 +1,11 @@
-#![allow(unused_imports, dead_code)]
 //! CLI used by ./check:   verif-checks <ID> quick|thorough   |   verif-checks <ID> --replay <file>
 use std::path::Path;
 use verif_model::run::{self, Tier};
 
-mod c01;
-mod c02;
-mod c03;
-mod c04;
-mod c05;
-mod c06;
-mod c07;
-mod c08;
-mod c09;
-mod c10;
-mod c11;
-mod c13;
-mod c14;
-mod c15;
-mod c16;
-mod c17;
-mod c18;
-mod c19;
-mod c20;
-mod common;
-mod conv;
-mod queries;
-mod stream;
-mod walk;
 
 #[global_allocator]
 static ALLOC: verif_model::alloc::Shim = verif_model::alloc::Shim;
 
-fn properties() -> Vec<run::Property> {
-    vec![c01::property(), c02::property(), c03::property(), c04::property(), c05::property(), c06::property(), c07::property(), c08::property(), c09::property(), c10::property(), c11::property_c11(), c11::property_c12(), c13::property(), c14::property(), c15::property(), c16::property(), c17::property(), c18::property(), c19::property(), c20::property()]
-}
 
 fn main() {
     let args: Vec<String> = std::env::args().collect();
@@ -55,7 +27,7 @@ fn main() {
             }
         }
     }
-    let props = properties();
+    let props = verif_checks::properties();
     let props: &'static Vec<run::Property> = Box::leak(Box::new(props));
     let prop = match props.iter().find(|p| p.id == args[1]) {
         Some(p) => p,
